@@ -10,10 +10,20 @@ import numpy as np
 import shim  # noqa: F401
 from scipy.stats import multinomial
 from common import Driver, q, qlist, ilist, unqlist
+import c14_translate
 from quara.qcircuit import data_generator as dg
 from quara.utils.number_util import to_stream
 
 MT = lambda s: np.random.Generator(np.random.MT19937(s))  # noqa: E731  what the property says an int seed means
+
+
+# ----------------------------------------------------------------------------- translator
+def translate(ctx):
+    try:
+        c14_translate.translate()
+    except c14_translate.Untranslatable as e:
+        return [f"translator (QGen/C14.lean): {e}"]
+    return []
 
 
 # ----------------------------------------------------------------------------- stub streams for the public entry points
@@ -201,6 +211,18 @@ def correspondence(ctx):
         us = MT(seed).random(n)
         pend.append(("data", (p.tolist(), n, seed), [int(x) for x in got], drv.ask("data", qlist(p), qlist(us))))
         ctx.case(("data", tuple(p), n, seed), nontrivial=n > 0, sample={"op": "data", "probs": p.tolist(), "n": n, "seed": seed})
+    # (2a) the pipeline: data from a seed, then empirical distributions of prefixes of the same data
+    for t, (kind, p) in enumerate(vecs[:60 if ctx.quick else 400]):
+        if not kind.startswith("dyadic"):
+            continue
+        seed = seeds[t % len(seeds)]
+        n = 40
+        data = dg.generate_data_from_prob_dist(p, n, seed)
+        us = MT(seed).random(n)
+        for ns in ([n], [1, 7, 40], sorted(set(int(x) for x in g.integers(1, n + 1, size=4))), [5, 5], [41]):
+            got = empi_impl(len(p), data, ns)
+            pend.append(("pipe", (p.tolist(), seed, ns), got, drv.ask("pipe", qlist(p), qlist(us), ilist(ns))))
+            ctx.case(("pipe", tuple(p), seed, tuple(ns)), sample={"op": "pipe", "probs": p.tolist(), "seed": seed, "num_sums": ns})
     # (2b) boundary uniforms through the PUBLIC functions: a spliced / zero-state generator is handed in as seed_or_generator
     for t, (kind, p) in enumerate(vecs):
         if not kind.startswith("dyadic"):
@@ -282,7 +304,7 @@ def correspondence(ctx):
             ok = int(line) == impl
         elif op == "data":
             ok = ([] if line == "-" else [int(x) for x in line.split(",")]) == impl
-        elif op == "empi":
+        elif op in ("empi", "pipe"):
             ok = same_empi(impl, parse_empi(line))
         elif op == "dataset":
             body, left = line.rsplit(" ", 1)
@@ -325,8 +347,9 @@ class Entry:
     (draws taken from that generator in the documented order); big = the result is large enough that two independent
     draws coincide with negligible probability"""
 
-    def __init__(self, name, run, ref=None, big=False):
+    def __init__(self, name, run, ref=None, big=False, run_kw=None):
         self.name, self.run, self.ref, self.big = name, run, ref, big
+        self.run_kw = run_kw     # the same call with the seed passed as keyword `seed_or_generator=`
 
 
 def ref_data(p, n, gen):
@@ -361,9 +384,11 @@ def entries(ctx):
     sch = [[("state", 0), ("povm", 0)], [("state", 0), ("povm", 0)], [("state", 0), ("gate", 0), ("mprocess", 0), ("povm", 1)]]
     ex = Experiment(schedules=sch, states=st, povms=pv, gates=gt, mprocesses=mp)
     pds = ex.calc_prob_dists()
-    E.append(Entry("Experiment.generate_data", lambda s: ex.generate_data(2, 80, s), lambda gen: ref_data(pds[2], 80, gen), big=True))
+    E.append(Entry("Experiment.generate_data", lambda s: ex.generate_data(2, 80, s), lambda gen: ref_data(pds[2], 80, gen), big=True,
+                   run_kw=lambda s: ex.generate_data(2, 80, seed_or_generator=s)))
     E.append(Entry("Experiment.generate_dataset", lambda s: ex.generate_dataset([40, 40, 30], s),
-                   lambda gen: [ref_data(p, n, gen) for p, n in zip(pds, [40, 40, 30])], big=True))
+                   lambda gen: [ref_data(p, n, gen) for p, n in zip(pds, [40, 40, 30])], big=True,
+                   run_kw=lambda s: ex.generate_dataset([40, 40, 30], seed_or_generator=s)))
     E.append(Entry("Experiment.generate_empi_dist_sequence", lambda s: ex.generate_empi_dist_sequence(0, [20, 200], s),
                    lambda gen: ref_empi_seq(pds[0], [20, 200], gen)))
     E.append(Entry("Experiment.generate_empi_dists_sequence", lambda s: ex.generate_empi_dists_sequence([[30, 30, 30], [300, 300, 300]], s),
@@ -422,14 +447,17 @@ def entries(ctx):
         S = len(tp)
         for si in range(S):
             E.append(Entry(f"{name}.generate_empi_dist[schedule {si}]", (lambda t, true, si: lambda s: t.generate_empi_dist(si, true, 500, s))(t, true, si),
-                           (lambda tp, si: lambda gen: ref_empi_seq(tp[si], [500], gen)[0])(tp, si)))
+                           (lambda tp, si: lambda gen: ref_empi_seq(tp[si], [500], gen)[0])(tp, si),
+                           run_kw=(lambda t, true, si: lambda s: t.generate_empi_dist(si, true, 500, seed_or_generator=s))(t, true, si)))
         E.append(Entry(f"{name}.generate_empi_dists", (lambda t, true: lambda s: t.generate_empi_dists(true, 300, s))(t, true),
-                       (lambda tp: lambda gen: [ref_empi_seq(p, [300], gen)[0] for p in tp])(tp)))
+                       (lambda tp: lambda gen: [ref_empi_seq(p, [300], gen)[0] for p in tp])(tp),
+                       run_kw=(lambda t, true: lambda s: t.generate_empi_dists(true, 300, seed_or_generator=s))(t, true)))
 
         def ref_seq(gen, tp=tp):
             per = [ref_empi_seq(p, [40, 400], gen) for p in tp]          # schedule-major consumption
             return [[per[s][j] for s in range(len(tp))] for j in range(2)]  # returned sample-size-major
-        E.append(Entry(f"{name}.generate_empi_dists_sequence", (lambda t, true: lambda s: t.generate_empi_dists_sequence(true, [40, 400], s))(t, true), ref_seq))
+        E.append(Entry(f"{name}.generate_empi_dists_sequence", (lambda t, true: lambda s: t.generate_empi_dists_sequence(true, [40, 400], s))(t, true), ref_seq,
+                       run_kw=(lambda t, true: lambda s: t.generate_empi_dists_sequence(true, [40, 400], seed_or_generator=s))(t, true)))
     return E
 
 
@@ -448,6 +476,15 @@ def purity(ctx, e, seed, hist, rep):
     except Exception as ex:  # noqa
         ctx.violate(f"{site}/raises", f"{type(ex).__name__}: {ex}", rep)
         return
+    if e.run_kw is not None:
+        try:
+            rk = canon(e.run_kw(seed)); rkn = None
+            perturb(a1, k1); rkn = canon(e.run_kw(None))
+        except Exception as ex:  # noqa
+            ctx.violate(f"{site}/keyword-seed/raises", f"seed passed as keyword seed_or_generator=: {type(ex).__name__}: {ex}", rep)
+        else:
+            if rk != r1 or rkn != r6:
+                ctx.violate(f"{site}/keyword-seed/differs", "passing the seed by keyword gives a different result than passing it positionally", rep)
     if r1 != r2:
         ctx.violate(f"{site}/int-seed/depends-on-history", f"seed {seed}: result differs after global histories {hist}", rep)
     if before != after:
